@@ -16,7 +16,7 @@ open Model
 
 inductive PyErr
   | ValueError | TypeError | ZeroDivisionError | AssertionError | StopIteration | IndexError
-  | OverflowError | NotImplementedError | RuntimeError | KeyError
+  | OverflowError | NotImplementedError | RuntimeError | KeyError | AttributeError
   | FuelExhausted
   | OutsideFragment
   deriving Repr, DecidableEq
@@ -25,7 +25,7 @@ def PyErr.name : PyErr → String
   | .ValueError => "ValueError" | .TypeError => "TypeError" | .ZeroDivisionError => "ZeroDivisionError"
   | .AssertionError => "AssertionError" | .StopIteration => "StopIteration" | .IndexError => "IndexError"
   | .OverflowError => "OverflowError" | .NotImplementedError => "NotImplementedError"
-  | .RuntimeError => "RuntimeError" | .KeyError => "KeyError"
+  | .RuntimeError => "RuntimeError" | .KeyError => "KeyError" | .AttributeError => "AttributeError"
   | .FuelExhausted => "FuelExhausted" | .OutsideFragment => "OutsideFragment"
 
 /-- sequencing: evaluate `x`; an exception propagates, a value is passed on -/
@@ -78,5 +78,49 @@ def mkBytes (l : List Int) : Except PyErr (List Int) :=
 def next : List Int → Except PyErr (Int × List Int)
   | [] => .error .StopIteration
   | b :: rest => .ok (b, rest)
+
+/-! ### bytearray parameters (relocation `apply` bodies)
+
+A `bytearray` is the list of its elements.  `BitView(data, 0, length)[a:b] = value` (ppci/utils/bitfun.py)
+is a PRIMITIVE of the translation, not translated code: its meaning is stated on the little-endian integer
+of the buffer with the two statements the source applies per byte (`&= 0xFF ^ mask; |= bits`). -/
+
+/-- little-endian value of a buffer -/
+def fromLE : List Int → Nat
+  | [] => 0
+  | b :: bs => b.toNat + 256 * fromLE bs
+
+/-- the `k` low bytes of `x`, least significant first -/
+def toLE : Nat → Nat → List Int
+  | 0, _ => []
+  | k + 1, x => ((x % 256 : Nat) : Int) :: toLE k (x / 256)
+
+/-- `x &= mask ^ (((1 << w) - 1) << b); x |= v << b` with `mask = (1 << size) - 1` -/
+def writeBits (size bv b w x : Nat) : Nat :=
+  (bv &&& (((1 <<< size) - 1) ^^^ (((1 <<< w) - 1) <<< b))) ||| (x <<< b)
+
+/-- `BitView(data, 0, length)[a:b] = value`:
+    `assert b - a > 0; assert b <= length * 8; assert value < (1 << (b - a))`, then bits `[a, b)` of the
+    buffer become `value mod 2^(b-a)` (IndexError if the buffer is shorter than the slice needs) -/
+def bvSet (data : List Int) (length a b : Nat) (value : Int) : Except PyErr (List Int) :=
+  if ¬ (b > a) then .error .AssertionError
+  else if ¬ (b ≤ length * 8) then .error .AssertionError
+  else if ¬ (value < 2 ^ (b - a)) then .error .AssertionError
+  else if b > 8 * data.length then .error .IndexError
+  else .ok (toLE data.length (writeBits (8 * data.length) (fromLE data) a (b - a) (value % 2 ^ (b - a)).toNat))
+
+/-- `data[i] = v` on a bytearray: ValueError unless `0 ≤ v < 256`, IndexError past the end -/
+def setByte (data : List Int) (i : Nat) (v : Int) : Except PyErr (List Int) :=
+  if ¬ (0 ≤ v ∧ v < 256) then .error .ValueError
+  else if i ≥ data.length then .error .IndexError
+  else .ok (data.set i v)
+
+/-- `data[i] |= v` on a bytearray -/
+def orByte (data : List Int) (i : Nat) (v : Int) : Except PyErr (List Int) :=
+  match data[i]? with
+  | none => .error .IndexError
+  | some old =>
+    let r := PyInt.or old v
+    if ¬ (0 ≤ r ∧ r < 256) then .error .ValueError else .ok (data.set i r)
 
 end Model.PyRt
